@@ -22,6 +22,10 @@
 //!   soct|scstr|sstr|sascii|ssym|smark <token>, scent|sesym <token>..   the other
 //!        IterScanner methods (scan_octets, scan_charstr, scan_string, scan_ascii_str,
 //!        scan_symbols, scan_opt_unknown_marker, scan_charstr_entry, scan_entry_symbols)
+//!   encf64|32|16 <octets>   display straight into a String
+//!   serj*|serc*|sercd* <octets>, serjd* <text>   the serde helpers: JSON (text) and a compact
+//!        non-human-readable format (octets); saltj|saltc|saltcd|hashj|hashc|hashcd <octets>,
+//!        saltjd|hashjd <text>   Nsec3Salt / OwnerHash Serialize / Deserialize
 //!   conv64|conv32|conv16 <text> <text>..=> Ok <octets> | Err <Illegal|Trailing|Short>
 //!        the scanner's SymbolConverter fed with the chars of every chunk
 //!        followed by EndOfToken, then process_tail
@@ -686,16 +690,85 @@ fn serde_from_json(c: Codec, j: &str) -> Result<Result<Vec<u8>, String>, String>
     })
 }
 
-/// human-readable serializer: the octets travel as the RFC 4648 text
-fn oracle_serde_octets(out: &mut Out, c: Codec, b: &[u8]) {
-    let case = format!("serde{} {}", c.tag(), hex(b));
-    out.begin(&case);
-    out.oracle_case(&case, !b.is_empty(), &format!("serde{}_oracle_only", c.tag()));
+/// A minimal non-human-readable serde format: a value is the octets handed to
+/// serialize_bytes (newtype structs are transparent).
+mod compact {
+    use serde::de::Visitor;
+    use serde::ser::{self, Impossible, Serialize};
+    pub type Error = serde::de::value::Error;
+    fn no<T>() -> Result<T, Error> { Err(ser::Error::custom("unsupported by the compact test format")) }
+    pub struct Ser;
+    impl ser::Serializer for Ser {
+        type Ok = Vec<u8>;
+        type Error = Error;
+        type SerializeSeq = Impossible<Vec<u8>, Error>;
+        type SerializeTuple = Impossible<Vec<u8>, Error>;
+        type SerializeTupleStruct = Impossible<Vec<u8>, Error>;
+        type SerializeTupleVariant = Impossible<Vec<u8>, Error>;
+        type SerializeMap = Impossible<Vec<u8>, Error>;
+        type SerializeStruct = Impossible<Vec<u8>, Error>;
+        type SerializeStructVariant = Impossible<Vec<u8>, Error>;
+        fn is_human_readable(&self) -> bool { false }
+        fn serialize_bytes(self, v: &[u8]) -> Result<Vec<u8>, Error> { Ok(v.to_vec()) }
+        fn serialize_newtype_struct<T: ?Sized + Serialize>(self, _n: &'static str, v: &T) -> Result<Vec<u8>, Error> { v.serialize(self) }
+        fn serialize_bool(self, _: bool) -> Result<Vec<u8>, Error> { no() }
+        fn serialize_i8(self, _: i8) -> Result<Vec<u8>, Error> { no() }
+        fn serialize_i16(self, _: i16) -> Result<Vec<u8>, Error> { no() }
+        fn serialize_i32(self, _: i32) -> Result<Vec<u8>, Error> { no() }
+        fn serialize_i64(self, _: i64) -> Result<Vec<u8>, Error> { no() }
+        fn serialize_u8(self, _: u8) -> Result<Vec<u8>, Error> { no() }
+        fn serialize_u16(self, _: u16) -> Result<Vec<u8>, Error> { no() }
+        fn serialize_u32(self, _: u32) -> Result<Vec<u8>, Error> { no() }
+        fn serialize_u64(self, _: u64) -> Result<Vec<u8>, Error> { no() }
+        fn serialize_f32(self, _: f32) -> Result<Vec<u8>, Error> { no() }
+        fn serialize_f64(self, _: f64) -> Result<Vec<u8>, Error> { no() }
+        fn serialize_char(self, _: char) -> Result<Vec<u8>, Error> { no() }
+        fn serialize_str(self, _: &str) -> Result<Vec<u8>, Error> { no() }
+        fn serialize_none(self) -> Result<Vec<u8>, Error> { no() }
+        fn serialize_some<T: ?Sized + Serialize>(self, _: &T) -> Result<Vec<u8>, Error> { no() }
+        fn serialize_unit(self) -> Result<Vec<u8>, Error> { no() }
+        fn serialize_unit_struct(self, _: &'static str) -> Result<Vec<u8>, Error> { no() }
+        fn serialize_unit_variant(self, _: &'static str, _: u32, _: &'static str) -> Result<Vec<u8>, Error> { no() }
+        fn serialize_newtype_variant<T: ?Sized + Serialize>(self, _: &'static str, _: u32, _: &'static str, _: &T) -> Result<Vec<u8>, Error> { no() }
+        fn serialize_seq(self, _: Option<usize>) -> Result<Self::SerializeSeq, Error> { no() }
+        fn serialize_tuple(self, _: usize) -> Result<Self::SerializeTuple, Error> { no() }
+        fn serialize_tuple_struct(self, _: &'static str, _: usize) -> Result<Self::SerializeTupleStruct, Error> { no() }
+        fn serialize_tuple_variant(self, _: &'static str, _: u32, _: &'static str, _: usize) -> Result<Self::SerializeTupleVariant, Error> { no() }
+        fn serialize_map(self, _: Option<usize>) -> Result<Self::SerializeMap, Error> { no() }
+        fn serialize_struct(self, _: &'static str, _: usize) -> Result<Self::SerializeStruct, Error> { no() }
+        fn serialize_struct_variant(self, _: &'static str, _: u32, _: &'static str, _: usize) -> Result<Self::SerializeStructVariant, Error> { no() }
+    }
+    pub struct De(pub Vec<u8>);
+    impl<'de> serde::Deserializer<'de> for De {
+        type Error = Error;
+        fn is_human_readable(&self) -> bool { false }
+        fn deserialize_any<V: Visitor<'de>>(self, v: V) -> Result<V::Value, Error> { v.visit_byte_buf(self.0) }
+        fn deserialize_newtype_struct<V: Visitor<'de>>(self, _n: &'static str, v: V) -> Result<V::Value, Error> { v.visit_newtype_struct(self) }
+        serde::forward_to_deserialize_any! {
+            bool i8 i16 i32 i64 u8 u16 u32 u64 f32 f64 char str string bytes byte_buf option unit
+            unit_struct seq tuple tuple_struct map struct enum identifier ignored_any
+        }
+    }
+}
+
+fn res_obs(r: &Result<Result<Vec<u8>, String>, String>) -> String {
+    match r { Err(_) => "Panic".into(), Ok(Ok(v)) => format!("Ok {}", hex(v)), Ok(Err(_)) => "Err".into() }
+}
+
+/// serde helpers of the codecs: human-readable (JSON) and compact
+fn t2_serde_octets(out: &mut Out, c: Codec, b: &[u8]) {
     let p = c.pfx();
-    match serde_to_json(c, b) {
+    // JSON: the RFC 4648 text as a string
+    let case = format!("serj{} {}", c.tag(), hex(b));
+    out.begin(&case);
+    let j = serde_to_json(c, b);
+    let want = format!("\"{}\"", ref_encode(c, b));
+    let obs = match &j { Err(_) => "Panic".to_string(), Ok(Err(_)) => "Err".into(),
+        Ok(Ok(t)) => { let inner: Vec<char> = t.trim_matches('"').chars().collect(); format!("Ok {}", cps(&inner)) } };
+    out.case(&case, &obs, !b.is_empty(), &format!("serj{}", c.tag()));
+    match j {
         Err(e) => chk(out, false, &format!("{}_serde_panics", p), &case, &e),
         Ok(j) => {
-            let want = format!("\"{}\"", ref_encode(c, b));
             chk(out, j.as_deref() == Ok(want.as_str()), &format!("{}_serde_serialize", p), &case, &format!("{:?} vs {}", j, want));
             if let Ok(j) = j {
                 match serde_from_json(c, &j) {
@@ -705,19 +778,97 @@ fn oracle_serde_octets(out: &mut Out, c: Codec, b: &[u8]) {
             }
         }
     }
-}
-/// deserializing a JSON string accepts exactly what `decode` accepts
-fn oracle_serde_text(out: &mut Out, c: Codec, s: &[char]) {
-    let case = format!("serdetext{} {}", c.tag(), cps(s));
+    // compact: the octets themselves, both ways
+    let case = format!("serc{} {}", c.tag(), hex(b));
     out.begin(&case);
-    out.oracle_case(&case, !s.is_empty(), &format!("serdetext{}_oracle_only", c.tag()));
+    let bb = b.to_vec();
+    let r = catch(move || match c {
+        B64 => serde::Serialize::serialize(&S64(bb), compact::Ser).map_err(|e| e.to_string()),
+        B32 => serde::Serialize::serialize(&S32(bb), compact::Ser).map_err(|e| e.to_string()),
+        B16 => serde::Serialize::serialize(&S16(bb), compact::Ser).map_err(|e| e.to_string()),
+    });
+    out.case(&case, &res_obs(&r), !b.is_empty(), &format!("serc{}", c.tag()));
+    chk(out, matches!(&r, Ok(Ok(v)) if v.as_slice() == b), &format!("{}_serde_compact_serialize", p), &case, &res_obs(&r));
+    let case = format!("sercd{} {}", c.tag(), hex(b));
+    out.begin(&case);
+    let bb = b.to_vec();
+    let r = catch(move || match c {
+        B64 => <S64 as serde::Deserialize>::deserialize(compact::De(bb)).map(|x| x.0).map_err(|e| e.to_string()),
+        B32 => <S32 as serde::Deserialize>::deserialize(compact::De(bb)).map(|x| x.0).map_err(|e| e.to_string()),
+        B16 => <S16 as serde::Deserialize>::deserialize(compact::De(bb)).map(|x| x.0).map_err(|e| e.to_string()),
+    });
+    out.case(&case, &res_obs(&r), !b.is_empty(), &format!("sercd{}", c.tag()));
+    chk(out, matches!(&r, Ok(Ok(v)) if v.as_slice() == b), &format!("{}_serde_compact_deserialize", p), &case, &res_obs(&r));
+}
+
+/// deserializing a JSON string accepts exactly what `decode` accepts
+fn t2_serde_text(out: &mut Out, c: Codec, s: &[char]) {
+    let case = format!("serjd{} {}", c.tag(), cps(s));
+    out.begin(&case);
     let p = c.pfx();
     let j = serde_json::to_string(&text_of(s)).unwrap();
     let want = ref_decode(c, s);
-    match serde_from_json(c, &j) {
+    let r = serde_from_json(c, &j);
+    out.case(&case, &res_obs(&r), !s.is_empty(), &format!("serjd{}", c.tag()));
+    match r {
         Err(e) => chk(out, false, &format!("{}_serde_panics", p), &case, &e),
-        Ok(r) => chk(out, r.as_ref().ok() == want.as_ref(), &format!("{}_serde_deserialize", p), &case, &format!("{:?} vs reference {:?}", r, want)),
+        Ok(r) => {
+            chk(out, r.as_ref().ok() == want.as_ref(), &format!("{}_serde_deserialize", p), &case, &format!("{:?} vs reference {:?}", r, want));
+            // every text entry point of the codec agrees: decode, SymbolConverter, serde
+            let d = imp_decode(c, s);
+            chk(out, matches!(&d, Ok(x) if x.as_ref().ok() == r.as_ref().ok()), &format!("{}_entry_points_disagree", p), &case, &format!("serde {:?} vs decode {:?}", r, d));
+        }
     }
+}
+
+/// Nsec3Salt / OwnerHash through serde: JSON = Display / FromStr, compact = octets (limit 255)
+fn t2_nsec3_serde_octets(out: &mut Out, b: &[u8]) {
+    for salt in [true, false] {
+        let tag = if salt { "salt" } else { "hash" };
+        let bb = b.to_vec();
+        // compact deserialize: the only way to get octets in; must enforce the limit
+        let case = format!("{}cd {}", tag, hex(b));
+        out.begin(&case);
+        let r = catch(move || if salt { <Nsec3Salt<Vec<u8>> as serde::Deserialize>::deserialize(compact::De(bb)).map(|x| x.as_slice().to_vec()).map_err(|e| e.to_string()) }
+                              else { <OwnerHash<Vec<u8>> as serde::Deserialize>::deserialize(compact::De(bb)).map(|x| x.as_slice().to_vec()).map_err(|e| e.to_string()) });
+        out.case(&case, &res_obs(&r), !b.is_empty(), &format!("{}cd", tag));
+        let want: Option<&[u8]> = if b.len() <= 255 { Some(b) } else { None };
+        chk(out, matches!(&r, Ok(x) if x.as_deref().ok() == want), &format!("nsec3_{}_serde_compact", tag), &case, &res_obs(&r));
+        if b.len() > 255 { continue; }
+        // JSON: the presentation format
+        let case = format!("{}j {}", tag, hex(b));
+        out.begin(&case);
+        let bb = b.to_vec();
+        let j = catch(move || if salt { serde_json::to_string(&Nsec3Salt::from_octets(bb).unwrap()).map_err(|e| e.to_string()) }
+                              else { serde_json::to_string(&OwnerHash::from_octets(bb).unwrap()).map_err(|e| e.to_string()) });
+        let want = if salt && b.is_empty() { "\"-\"".to_string() } else { format!("\"{}\"", ref_encode(if salt { B16 } else { B32 }, b)) };
+        let obs = match &j { Ok(Ok(t)) => { let inner: Vec<char> = t.trim_matches('"').chars().collect(); format!("Ok {}", cps(&inner)) } Ok(Err(_)) => "Err".into(), Err(_) => "Panic".into() };
+        out.case(&case, &obs, !b.is_empty(), &format!("{}j", tag));
+        chk(out, matches!(&j, Ok(Ok(t)) if *t == want), &format!("nsec3_{}_serde_json", tag), &case, &format!("{:?} vs {}", j, want));
+        // compact serialize = the octets
+        let case = format!("{}c {}", tag, hex(b));
+        out.begin(&case);
+        let bb = b.to_vec();
+        let r = catch(move || if salt { serde::Serialize::serialize(&Nsec3Salt::from_octets(bb).unwrap(), compact::Ser).map_err(|e| e.to_string()) }
+                              else { serde::Serialize::serialize(&OwnerHash::from_octets(bb).unwrap(), compact::Ser).map_err(|e| e.to_string()) });
+        out.case(&case, &res_obs(&r), !b.is_empty(), &format!("{}c", tag));
+        chk(out, matches!(&r, Ok(Ok(v)) if v.as_slice() == b), &format!("nsec3_{}_serde_compact", tag), &case, &res_obs(&r));
+    }
+}
+
+/// JSON string -> Nsec3Salt / OwnerHash must be FromStr
+fn t2_nsec3_serde_text(out: &mut Out, salt: bool, s: &[char]) {
+    let tag = if salt { "salt" } else { "hash" };
+    let case = format!("{}jd {}", tag, cps(s));
+    out.begin(&case);
+    let t = text_of(s);
+    let j = serde_json::to_string(&t).unwrap();
+    let r = catch(move || if salt { serde_json::from_str::<Nsec3Salt<Vec<u8>>>(&j).map(|x| x.as_slice().to_vec()).map_err(|e| e.to_string()) }
+                          else { serde_json::from_str::<OwnerHash<Vec<u8>>>(&j).map(|x| x.as_slice().to_vec()).map_err(|e| e.to_string()) });
+    out.case(&case, &res_obs(&r), !s.is_empty(), &format!("{}jd", tag));
+    let t2 = text_of(s);
+    let f: Option<Vec<u8>> = if salt { Nsec3Salt::<Vec<u8>>::from_str(&t2).ok().map(|x| x.as_slice().to_vec()) } else { OwnerHash::<Vec<u8>>::from_str(&t2).ok().map(|x| x.as_slice().to_vec()) };
+    chk(out, matches!(&r, Ok(x) if x.as_ref().ok() == f.as_ref()), &format!("nsec3_{}_entry_points_disagree", tag), &case, &format!("serde {} vs from_str {:?}", res_obs(&r), f.as_ref().map(|v| v.len())));
 }
 
 // ------------------------------------- independent RFC 4648 reference (bits)
@@ -822,6 +973,14 @@ fn t2_enc(out: &mut Out, c: Codec, b: &[u8], record: bool) {
                 let dcase = format!("encd{} {}", c.tag(), hex(b));
                 let obs = match &d { Ok(t) => format!("Ok {}", cps(&t.chars().collect::<Vec<_>>())), Err(_) => "Panic".into() };
                 out.case(&dcase, &obs, !b.is_empty(), &format!("encd{}", c.tag()));
+            }
+            if record {
+                let bb = b.to_vec();
+                let f = catch(move || { let mut t = String::new(); let r = match c { B64 => base64::display(&bb, &mut t), B32 => base32::display_hex(&bb, &mut t), B16 => base16::display(&bb, &mut t) }; (r.is_ok(), t) });
+                let fcase = format!("encf{} {}", c.tag(), hex(b));
+                let obs = match &f { Ok((true, t)) => format!("Ok {}", cps(&t.chars().collect::<Vec<_>>())), Ok((false, _)) => "Err".into(), Err(_) => "Panic".into() };
+                out.case(&fcase, &obs, !b.is_empty(), &format!("encf{}", c.tag()));
+                chk(out, matches!(&f, Ok((true, t)) if *t == s), &format!("{}_display_differs", p), &fcase, "display into a String differs from encode_string");
             }
             if c == B16 {
                 let t = s.clone();
@@ -977,6 +1136,7 @@ fn rand_char(r: &mut Rng, c: Codec, al: &[char], nb: &[char]) -> char {
         1 => *r.pick(ODD),
         2 => '=',
         3 => char::from_u32(r.below(0x250) as u32).unwrap_or('?'),
+        4 => { let lo = *r.pick(al) as u32; char::from_u32(0x100 * (1 + r.below(0x10ff) as u32) + lo).unwrap_or('\u{141}') }
         _ => { let _ = c; *r.pick(al) }
     }
 }
@@ -1304,12 +1464,53 @@ fn main() {
     for c in codecs {
         let al = alphabet(c);
         let nb = neighbours(c);
-        for n in 0..=16usize { let b = r.bytes(n); if want!() { oracle_serde_octets(&mut out, c, &b); } }
+        for n in 0..=16usize { let b = r.bytes(n); if want!() { t2_serde_octets(&mut out, c, &b); } }
         for _ in 0..(if a.thorough { 3000 } else { 300 } * a.scale) {
             let n = r.below(60) as usize; let b = r.bytes(n);
-            if want!() { oracle_serde_octets(&mut out, c, &b); }
+            if want!() { t2_serde_octets(&mut out, c, &b); }
             let s = rand_text(&mut r, c, &al, &nb);
-            if want!() { oracle_serde_text(&mut out, c, &s); }
+            if want!() { t2_serde_text(&mut out, c, &s); }
+        }
+    }
+    // ---- every encode entry point, every length 0..300
+    for c in codecs {
+        for n in 0..=300usize {
+            let b = if n % 5 == 0 { vec![0xffu8; n] } else { r.bytes(n) };
+            if want!() { t2_enc(&mut out, c, &b, true); }
+        }
+    }
+    // ---- code points above U+00FF whose low octet is an alphabet character (a cast to u8
+    //      would alias them to the alphabet), in every char-taking entry point
+    for c in codecs {
+        let al = alphabet(c);
+        let base: Vec<char> = ref_encode(c, &[0x12, 0x34, 0x56, 0x78, 0x9a]).chars().filter(|x| *x != '=').collect();
+        for a0 in &al {
+            for k in [1u32, 2, 0xff, 0x1f6] {
+                let ch = match char::from_u32(k * 0x100 + *a0 as u32) { Some(x) => x, None => continue };
+                let mut t = base.clone(); let pos = (k as usize + *a0 as usize) % t.len(); t[pos] = ch;
+                if want!() { t2_dec(&mut out, c, &t); }
+                if want!() { t2_push(&mut out, c, &t); }
+                if want!() { t2_conv(&mut out, c, &[t[..pos].to_vec(), t[pos..].to_vec()]); }
+                if want!() { t2_scan(&mut out, c, &[t.clone()], false); }
+                if want!() { t2_serde_text(&mut out, c, &t); }
+                if c == B16 { if want!() { t2_salt(&mut out, &t); } if want!() { t2_nsec3_serde_text(&mut out, true, &t); } }
+                if c == B32 { if want!() { t2_hash(&mut out, &t); } if want!() { t2_nsec3_serde_text(&mut out, false, &t); } }
+            }
+        }
+    }
+    // ---- Nsec3Salt / OwnerHash through serde
+    for n in (0..=8usize).chain([254, 255, 256, 257, 300]) { let b = r.bytes(n); if want!() { t2_nsec3_serde_octets(&mut out, &b); } }
+    for t in ["-", "", "--", "-AB", "AB-", "ab", "A", "G0", "\\-", "AB "] {
+        if want!() { t2_nsec3_serde_text(&mut out, true, &chars(t)); }
+        if want!() { t2_nsec3_serde_text(&mut out, false, &chars(t)); }
+    }
+    {
+        let (al16, nb16) = (alphabet(B16), neighbours(B16));
+        let (al32, nb32) = (alphabet(B32), neighbours(B32));
+        for _ in 0..(if a.thorough { 3000 } else { 300 } * a.scale) {
+            let s = rand_text(&mut r, B16, &al16, &nb16); if want!() { t2_nsec3_serde_text(&mut out, true, &s); }
+            let s = rand_text(&mut r, B32, &al32, &nb32); if want!() { t2_nsec3_serde_text(&mut out, false, &s); }
+            let n = r.below(40) as usize; let b = r.bytes(n); if want!() { t2_nsec3_serde_octets(&mut out, &b); }
         }
     }
     // ---- random texts: decode, push API, random chunkings through the converter
